@@ -7,6 +7,18 @@ CHECKS = {
     "C01": ("exploration", "property-based testing (Hypothesis): render/parse round-trip vs. the rendered datetime; thorough tier walks every calendar day 0001-9999",
             "Generated round-trip search: boundary-biased datetimes x 17 harness-written renderings x language/PREFER_* choices, and epoch timestamps x suffix x sign x zones against an independent pytz computation. Thorough enumerates all 3.65 M calendar days once. Search, not proof: absence of a counterexample in the explored set.",
             "Trusts pytz for zone arithmetic and Python's datetime; process TZ=UTC.", "DESIGN.md §4 C01"),
+    "C02": ("exploration", "structured fuzzing with Hypothesis (string mutation, token/digit soups, arbitrary Unicode x generated settings/language/format arguments), exception-bucketing by (type, innermost library frame), fresh-process re-confirmation",
+            "Totality and the error contract over generated (string, settings, languages/locales/region, date_formats) tuples with boundary-biased reference times (datetime.min/max, aware bases); invalid-settings sub-generator requires the documented exception whatever the string is; parse, get_date_data and get_date_tuple must agree in shape.",
+            "Only resolvable timezone names; 10-entry settings pool under autodetection (cost); TZ=UTC.", "DESIGN.md §4 C02"),
+    "C03": ("exploration", "stateful property-based testing (Hypothesis-generated call histories, whole history shrinks) against a fresh-process oracle (forked pristine child per call, validated with real interpreters under several PYTHONHASHSEED values)",
+            "Histories of parse / DateDataParser creation and reuse / search_dates / calendar / failing calls over settings variants, executed in a forked child; every step's outcome must equal the same call alone in a fresh fork, passed-in containers must stay unmodified and default-settings probes must keep their fresh values. Directed 'setup, interference, probe' triples and free histories, from cold and warmed start states.",
+            "A fork of a process that only imported dateparser stands for a fresh process (validated against new interpreters).", "DESIGN.md §4 C03"),
+    "C17": ("exploration", "property-based testing / structured fuzzing (Hypothesis) of search_dates with a well-formedness oracle; walk over all 205 languages",
+            "Texts built from corpus dates of the requested language, filler and mutated punctuation, for every language explicitly, multi-language and autodetect: no exception, None or non-empty list, tuple arity, non-blank in-text substrings in text order, datetime values, language element among the requested.",
+            "Valid language codes only; frozen clock.", "DESIGN.md §4 C17"),
+    "C20": ("exploration", "harness-owned thread schedules (sys.settrace preemption of A at its k-th library line, B to completion) enumerated over distinct lines and drawn by Hypothesis; oracle = results of the same calls alone",
+            "14 call pairs x 2 directions x {warm, cold start} x preemption at the first occurrence of every distinct executed library line (quick: half of the pairs/lines, seeded) + random k; every schedule in a forked child from a per-pair zygote; lock-holding callback points are detected and counted as infeasible. Four recorded findings (shared Settings / shared Locale dictionary, no locking).",
+            "One preemption, run-to-completion schedules only (the property's own quantifier); real threads, deterministic given k.", "DESIGN.md §4 C20"),
     "C04": ("exploration", "property-based testing (Hypothesis) against an independent calendar-arithmetic oracle; thorough adds an exhaustive units x n x direction x base grid",
             "Generated phrases (1-3 units, counts 0..5000, decimals, fixed words, clock times, RETURN_TIME_AS_PERIOD) over boundary-biased bases given as RELATIVE_BASE or frozen clock, compared with integer month arithmetic + exact timedelta written in the harness (no relativedelta); implicit-now stage against pytz for TIMEZONE/TO_TIMEZONE pairs.",
             "Both application orders accepted when month clamping makes them differ; comma decimals only in single-unit phrases; TZ=UTC.", "DESIGN.md §4 C04"),
